@@ -73,16 +73,18 @@ package net
 //@   ensures[C10,C19] w.accepting && len(m.Payload) == m.Header.Size ==> w.writes == old(w.writes) + 1
 //@   ensures[C10,C19] w.writes <= old(w.writes) + 1 || !w.accepting
 
+// (C11: a connection lost in the middle of a message - inside the header or inside the payload - makes
+// Read fail, which is what turns into closeWith(err) in the receive loop and fails the calls in flight)
 //@ func (m *Message) Read(r io.Reader) (err error)
-//@   tags C01 C07 C08
+//@   tags C01 C07 C08 C11
 //@   opt alloclimit 10485760
 //@   decoder r
 //@   modifies *m
 //@   ensures err == nil ==> validhdr(m.Header) && m.Header.Size <= 10485760 && hdrdec(r.data, old(r.pos), m.Header)
 //@   ensures err == nil ==> r.pos == old(r.pos) + 28 + m.Header.Size && len(m.Payload) == m.Header.Size
 //@   ensures err == nil ==> forall j int {m.Payload[j]} :: 0 <= j && j < len(m.Payload) ==> m.Payload[j] == r.data[old(r.pos) + 28 + j]
-//@   ensures[C08] old(r.len) - old(r.pos) < 28 ==> err != nil
-//@   ensures[C08] old(r.len) - old(r.pos) >= 28 && old(r.len) - old(r.pos) < 28 + le32(r.data, old(r.pos) + 8) ==> err != nil
+//@   ensures[C08,C11] old(r.len) - old(r.pos) < 28 ==> err != nil
+//@   ensures[C08,C11] old(r.len) - old(r.pos) >= 28 && old(r.len) - old(r.pos) < 28 + le32(r.data, old(r.pos) + 8) ==> err != nil
 //@   ensures[C01] r.faultfree && old(r.len) - old(r.pos) >= 28 && validbytes(r.data, old(r.pos)) && le32(r.data, old(r.pos) + 8) <= 10485760 && old(r.len) - old(r.pos) >= 28 + le32(r.data, old(r.pos) + 8) ==> err == nil
 //@   ensures[C01] old(r.len) - old(r.pos) >= 28 && (!validbytes(r.data, old(r.pos)) || le32(r.data, old(r.pos) + 8) > 10485760) ==> err != nil && r.pos <= old(r.pos) + 28
 //@   ensures[C01] err == io.EOF ==> r.pos == old(r.pos)
